@@ -41,6 +41,27 @@ Theorem function_cases_match_source : factor_ok factor_calls = true.
 Proof. vm_compute. reflexivity. Qed.
 Print Assumptions function_cases_match_source.
 
+(* the subscript loop of PBasic::findvar, executed symbolically by the translator for 1..4 dimensions (maxdims = 4):
+   the element offset is the row-major polynomial j0*d1*..*d(n-1) + ... + j(n-1), subscript t is tested against extent t,
+   a comma is required after every subscript but the last *)
+Theorem findvar_offset_matches_model : findvar_ok findvar_index findvar_bounds findvar_commas = true.
+Proof. vm_compute. reflexivity. Qed.
+Print Assumptions findvar_offset_matches_model.
+
+(* ... and the row-major polynomials are what the model's flat_index computes, for all extents and in-range subscripts *)
+Theorem findvar_offset_is_flat_index : forall (rho : string -> Z),
+  let d := fun s => rho s in
+  let inr := fun j e => ((0 <=? rho j) && (rho j <? rho e))%Z%bool in
+  (inr "j0" "d0" = true -> flat_index [d "d0"] [d "j0"] 0%Z = Some (poly_eval rho (expected_index 1))) /\
+  (inr "j0" "d0" = true -> inr "j1" "d1" = true ->
+     flat_index [d "d0"; d "d1"] [d "j0"; d "j1"] 0%Z = Some (poly_eval rho (expected_index 2))) /\
+  (inr "j0" "d0" = true -> inr "j1" "d1" = true -> inr "j2" "d2" = true ->
+     flat_index [d "d0"; d "d1"; d "d2"] [d "j0"; d "j1"; d "j2"] 0%Z = Some (poly_eval rho (expected_index 3))) /\
+  (inr "j0" "d0" = true -> inr "j1" "d1" = true -> inr "j2" "d2" = true -> inr "j3" "d3" = true ->
+     flat_index [d "d0"; d "d1"; d "d2"; d "d3"] [d "j0"; d "j1"; d "j2"; d "j3"] 0%Z = Some (poly_eval rho (expected_index 4))).
+Proof. exact row_major_is_flat_index. Qed.
+Print Assumptions findvar_offset_is_flat_index.
+
 (* hosts_same: USER_PUNCH, USER_PRINT, RATES and CALCULATE_VALUES all go through Phreeqc::basic_compile /
    Phreeqc::basic_run, which forward to the one interpreter *)
 Theorem hosts_share_interpreter : hosts_ok host_calls = true.
